@@ -376,6 +376,22 @@ def _rand_cmd(rng, mkn):
     return [op, p]
 
 
+def _rename_session(rng):
+    """inside a sub-directory: NLST with and without a filter, RNFR ... (an intruding command) ... RNTO"""
+    cmds = [["CWD", rng.choice(["a", "a/b", "d", "/a/b/c", "sp ace", "a/b/../b"])]]
+    if rng.random() < 0.6:
+        cmds.append(["NLST", rng.choice(["*", "*.txt", "g.txt", "", "b", "b/*", "../*", "h?txt", "/a/*", ".", "b/"])])
+    cmds.append(["RNFR", rng.choice(["g.txt", "h.txt", "../f.txt", "/f.txt", "mk0", "../../secret.txt", "b/h.txt", "x\x00"])])
+    if rng.random() < 0.4:
+        cmds.append(rng.choice([["CWD", "/"], ["CDUP"], ["LIST", ""], ["RNFR", "/a/g.txt"], ["DELE", "g.txt"], ["NLST", "*"]]))
+    cmds.append(["RNTO", rng.choice(["mk1", "../mk1", "/mk2", "./mk0", "../../mk1", "b/mk1", "mk1/", "../../../mk0", "mk\x00"])])
+    if rng.random() < 0.5:
+        cmds.append(["RNTO", "mk2"])                 # a second RNTO without RNFR
+    if rng.random() < 0.5:
+        cmds.append(["NLST", rng.choice(["*", "mk1", "../mk*", "", "-l"])])
+    return cmds
+
+
 def _lonely_session(rng):
     """ordinary use, no path trickery: build something in an EMPTY root that is the only entry of its parent,
     then take it apart again, often completely (so that the root ends up empty)"""
@@ -432,6 +448,8 @@ def gen(rng, tier):
         cases.append({"k": "sess", "cmds": cmds})
     for _ in range(120 if quick else 1500):
         cases.append({"k": "sess", "layout": "lonely", "cmds": _lonely_session(rng)})
+    for _ in range(150 if quick else 1500):
+        cases.append({"k": "sess", "cmds": _rename_session(rng)})
     for c in range(256):
         cases.append({"k": "glob", "s": chr(c)})
         cases.append({"k": "glob", "s": "a" + chr(c) + "b"})
@@ -471,11 +489,17 @@ def to_coq(case):
             return None
         return f"CSeg {segl(case['cwd'])} {cstr(case['path'])}"
     if k == "glob":
+        if "[" in case["s"]:
+            return None     # see below: bracket expressions are outside the modelled fragment
         return f"CGlob {cstr(case['s'])}"
     if k == "path":
         if any(ord(c) > 127 for s in case["segs"] for c in s):
             return None
         return f"CPath {coq_bytes(CWD)} {cstr(case['root'])} {segl(case['segs'])}"
+    if any(c[0] == "NLST" for c in case["cmds"]) and any("[" in c[1] for c in case["cmds"] if len(c) > 1):
+        # fnmatch.translate reproduces a well-formed bracket expression verbatim ("[ab]", "[a-z]"), so the server's
+        # heuristic does NOT take such a last segment for a filter; the model treats every '[' as one.  Oracle only.
+        return None
     cmds = []
     for c in case["cmds"]:
         if c[0] == "CWD":
@@ -531,8 +555,9 @@ SPEC = Spec(
              "point below 256 is one byte (the server's default UTF-8 decoding is not modelled)",
              "the session model takes 'shell.access succeeds' as an arbitrary oracle; in the correspondence it is "
              "the fixed directory set of the scratch tree (sessions create/remove only mk*/up* names they never CWD into)",
-             "NLST's filtering by a glob-like last segment is not modelled (NLST arguments are generated from plain "
-             "names and '..' only)"],
+             "NLST: whether the last segment is a filter is modelled exactly for segments without '[' (bracket "
+             "expressions, which fnmatch.translate may reproduce verbatim, are checked by the oracle only); which names "
+             "the filter keeps is not modelled"],
     assumptions=["the shell is FTPShell/FTPAnonymousShell (paths only through _path); symbolic links are outside the property",
                  "login/authentication state is set by the harness (state = AUTHED, shell attached)"],
 )
